@@ -22,7 +22,7 @@ RLEAVES = ['mod:m_winnow', 'mod:m_vspec', 'mod:m_rspec', 'fn:number', 'fn:identi
 RCOMPARATORS = ['fn:partial', 'fn:caret', 'fn:tilde', 'fn:primitive', 'fn:partial_desugar_whole', 'fn:caret_desugar_whole', 'fn:tilde_desugar_whole', 'fn:primitive_desugar_whole']
 # how comparators are put together: hyphen ranges, the terminator look-ahead, garbage skipping, the blank separated list of one alternative
 # (-> intersect_all) and the `||` separated list of alternatives (-> concatenation), as whole functions
-RTOP = ['fn:parser', 'fn:hyphen', 'fn:hyphen_desugar_whole', 'fn:garbage', 'fn:simple', 'fn:range', 'fn:bound_sets', 'fn:range_set', 'fn:Range::parse_str']
+RTOP = ['mod:m_rprops', 'fn:parser', 'fn:hyphen', 'fn:hyphen_desugar_whole', 'fn:garbage', 'fn:simple', 'fn:range', 'fn:bound_sets', 'fn:range_set', 'fn:Range::parse_str']
 DESUGAR = RLEAVES + RCOMPARATORS + RTOP + ['clauses:' + f for f in DESUGAR_FNS] + ['fn:Partial::normalize', 'fn:Version::from@m_desugar', 'fn:Version::from@m_version', 'fn:number_check', 'fn:identifier_classify']
 FROM_U64 = ['fn:Version::from@m_version']
 # the representation invariant is ESTABLISHED by everything that builds a Range: the set-operation properties quantify over "ranges obtained
@@ -48,7 +48,7 @@ PROPS = {
         title='space joined comparators intersect, alternatives unite (AST level)',
         obligations=ORDER + BOUNDS + SAT + RANGE_SPEC + RLEAVES + RCOMPARATORS + RTOP + ['mod:m_npm', 'fn:BoundSet::intersect', 'fn:intersect_all', 'fn:empty_range_desugar', 'fn:lemma_c02_order_irrelevant', 'fn:lemma_c02_union', 'fn:lemma_c02_concat', 'fn:lemma_c01_alternative'],
         assumptions=[TEXT_SHELL, STD, '`bound_sets` flattens the per-alternative vectors in order (one std expression, not extracted)'],
-        not_decided=['the last step from the contracts of `range` (blank separated comparators -> conj_post) and `bound_sets` (`||` separated alternatives -> concatenation) to a statement about the concatenation of two range *texts* is not assembled'],
+        not_decided=['`a || b`: Range::parse holds the concatenation of the alternatives (contract of bound_sets) and a version satisfies / lies within the concatenation exactly when it does so for one alternative (lemma_c02_alternatives_unite); `a b`: the contract of `range` is conj_post over the blank separated comparators, about which lemma_c02_concat / _order_irrelevant speak. What is not assembled is the step from "the text a, the text b" to "the text a + blank + b" (that the reader of the joined text returns the joined lists)'],
         witness='c02',
     ),
     'C03': dict(
